@@ -83,6 +83,27 @@ Corollary C17_plurality : forall pre post (x c : C) (rest : ranked) (w : Q),
   get_n_best Qle_bool (dconv img_first (pre ++ (IP c :: IP x :: rest, w) :: post)) 1 = [Cand (kc c)].
 Proof. exact plurality_instance. Qed.
 
+(* instance: positional (Borda-type) rules - the winner moves one place up on a ballot of plain ranks; holds for
+   every rank scorer whose score at the higher of the two places is at least the score at the lower one *)
+Corollary C17_positional : forall (s : Convert.scorer) (n_cands : nat) pre_b post_b (pre post : list C) (x c : C) (w : Q)
+    (s_pre s_post : list Q) (a b : Q),
+  (0 <= w)%Q -> x <> c ->
+  rank_scores s n_cands (length (pre ++ x :: c :: post)) = Some (s_pre ++ a :: b :: s_post) ->
+  length s_pre = length pre -> (b <= a)%Q ->
+  get_n_best Qle_bool (dconv (pos_img s n_cands) (pre_b ++ (plain_ballot (pre ++ x :: c :: post), w) :: post_b)) 1 = [Cand (kc c)] ->
+  get_n_best Qle_bool (dconv (pos_img s n_cands) (pre_b ++ (plain_ballot (pre ++ c :: x :: post), w) :: post_b)) 1 = [Cand (kc c)].
+Proof. exact positional_instance. Qed.
+
+(* the score hypothesis holds at every pair of adjacent places for the Dowdall, modified Borda and fixed-top scorers *)
+Theorem C17_scorers_nonincreasing : forall n_cands k s_pre a b s_post,
+  (rank_scores Dowdall n_cands k = Some (s_pre ++ a :: b :: s_post) -> (b <= a)%Q) /\
+  (rank_scores ModifiedBorda n_cands k = Some (s_pre ++ a :: b :: s_post) -> (b <= a)%Q) /\
+  (forall top, rank_scores (FixedTop top) n_cands k = Some (s_pre ++ a :: b :: s_post) -> (b <= a)%Q).
+Proof.
+  intros. split; [apply dowdall_nonincreasing|]. split; [apply modified_borda_nonincreasing|].
+  intros top. apply fixed_top_nonincreasing.
+Qed.
+
 (* Pairwise rules: full statements (decided per explored case by the relational checker of the
    check; not yet theorems - listed as partial in the evidence).  [raises v v' w]: the pairwise
    counts change only in favour of w. *)
@@ -112,3 +133,5 @@ Print Assumptions C17_builtin_strict.
 Print Assumptions C17_additive.
 Print Assumptions C17_approval.
 Print Assumptions C17_plurality.
+Print Assumptions C17_positional.
+Print Assumptions C17_scorers_nonincreasing.
